@@ -771,6 +771,11 @@ PY_ISO = [   # text -> ('date', y, m, d) | ('time', h, mi, s, us, offset | None)
     ("2016-W40-4", ("date", 2016, 10, 6)), ("2016W404", ("date", 2016, 10, 6)), ("2016-W40", ("date", 2016, 10, 3)), ("2016W40", ("date", 2016, 10, 3)),
     ("2020-W53-5", ("date", 2021, 1, 1)), ("2021-W01-1", ("date", 2021, 1, 4)), ("2016-W52-7", ("date", 2017, 1, 1)), ("1999-W52-6", ("date", 2000, 1, 1)),
     ("2015-W01-1", ("date", 2014, 12, 29)), ("2020-W01-1", ("date", 2019, 12, 30)), ("2009-W53-7", ("date", 2010, 1, 3)),
+    ("2020-W01-2", ("date", 2019, 12, 31)), ("2015-W01-3", ("date", 2014, 12, 31)), ("2020W012", ("date", 2019, 12, 31)), ("2020-W01-3", ("date", 2020, 1, 1)), ("2026-W53-5", ("date", 2027, 1, 1)),
+    ("20161006T123456.1234567Z", ("dt", 2016, 10, 6, 12, 34, 56, 123456, 0)), ("T102030.123456789", ("time", 10, 20, 30, 123456, None)), ("20161006T123456,987654321+0130", ("dt", 2016, 10, 6, 12, 34, 56, 987654, 5400)),
+    ("T10:20:30", ("time", 10, 20, 30, 0, None)), ("T10:20:30.5-03:30", ("time", 10, 20, 30, 500000, -12600)), ("T102030", ("time", 10, 20, 30, 0, None)), ("T1020", ("time", 10, 20, 0, 0, None)), ("T10", ("time", 10, 0, 0, 0, None)),
+    ("20161006T1234", ("dt", 2016, 10, 6, 12, 34, 0, 0, None)), ("20161006T12", ("dt", 2016, 10, 6, 12, 0, 0, 0, None)), ("2016-10-06T12:34:56.1+14:00", ("dt", 2016, 10, 6, 12, 34, 56, 100000, 50400)),
+    ("2016-10-06T12:34:56-23:59", ("dt", 2016, 10, 6, 12, 34, 56, 0, -86340)), ("T10:2030", None), ("T1020:30", None),
     ("2016-280", ("date", 2016, 10, 6)), ("2016280", ("date", 2016, 10, 6)), ("2020-366", ("date", 2020, 12, 31)), ("2019-365", ("date", 2019, 12, 31)),
     ("2019-001", ("date", 2019, 1, 1)), ("2016-060", ("date", 2016, 2, 29)), ("2015-060", ("date", 2015, 3, 1)), ("2016-031", ("date", 2016, 1, 31)), ("2016-032", ("date", 2016, 2, 1)),
     ("2015-059", ("date", 2015, 2, 28)), ("2016-335", ("date", 2016, 11, 30)), ("2016-336", ("date", 2016, 12, 1)),
@@ -793,6 +798,129 @@ PY_ISO = [   # text -> ('date', y, m, d) | ('time', h, mi, s, us, offset | None)
     ("2016-000", None), ("2015-366", None), ("2016-367", None), ("2016-10-06T25:00", None), ("2016-10-06T10:61", None), ("10:20:61", None), ("2016-10-0612:34", None),
     ("2016-W404", None), ("2016W40-4", None), ("10:2030", None), ("1020:30", None), ("10:", None), ("", None), ("abc", None), ("2016-10-06T", None),
 ]
+
+
+# forms the compiled parse_iso8601 refuses and parse() then reads (or refuses) through its common fallback, identically in both back ends:
+# a year alone, and a basic time without the T designator (which parse() refuses with either back end) - confirmed by reading parsing/__init__.py
+RS_LEAVES_TO_FALLBACK = {"2016", "102030"}
+
+
+def _iso_table(ctx) -> list:
+    """the strings of PYISO.tabulated / RSISO.tabulated with the value each denotes (None: must be refused)"""
+    import datetime as _dt
+    table = list(PY_ISO)
+    if ctx.tier == "thorough":
+        # every day of years of each kind (common / leap, long / short ISO year, century) in the six date forms, alone and with a time
+        for y in (1583, 1999, 2000, 2004, 2015, 2016, 2020, 2021, 2100, 9999):
+            d = _dt.date(y, 1, 1)
+            while d.year == y:
+                iy, iw, iwd = d.isocalendar()
+                doy = d.timetuple().tm_yday
+                forms = [f"{y:04d}-{d.month:02d}-{d.day:02d}", f"{y:04d}{d.month:02d}{d.day:02d}", f"{iy:04d}-W{iw:02d}-{iwd}", f"{iy:04d}W{iw:02d}{iwd}", f"{y:04d}-{doy:03d}", f"{y:04d}{doy:03d}"]
+                if iy > 9999 or iy < 1:
+                    forms = forms[:2] + forms[4:]
+                for f_ in forms:
+                    table.append((f_, ("date", d.year, d.month, d.day)))
+                if d.day in (1, 15):
+                    table.append((forms[0] + "T23:59:59.999999-11:30", ("dt", d.year, d.month, d.day, 23, 59, 59, 999999, -41400)))
+                if d == _dt.date.max:
+                    break
+                d += _dt.timedelta(days=1)
+        for h in range(24):
+            for mi in (0, 29, 59):
+                table.append((f"{h:02d}:{mi:02d}:07.5+{h % 15:02d}{mi:02d}", ("time", h, mi, 7, 500000, (h % 15) * 3600 + mi * 60)))
+    return table
+
+
+def _iso_verdict(text, want, got) -> str:
+    """'' when `got` (a standard-library date / time / datetime, or ('raise', name)) is what `text` denotes"""
+    import datetime as _dt
+    if isinstance(got, tuple) and got[:1] == ("raise",):
+        if want is not None:
+            return f"{text!r} is refused ({got[1]}); it denotes {want}"
+        if got[1] not in ("ParserError", "ValueError"):
+            return f"{text!r} raises {got[1]} instead of a ValueError (ParserError)"
+        return ""
+    if want is None:
+        return f"{text!r} is accepted as {got!r}; it must be refused"
+    if want[0] == "date":
+        ok = type(got) is _dt.date and (got.year, got.month, got.day) == want[1:]
+    elif want[0] == "time":
+        ok = type(got) is _dt.time and (got.hour, got.minute, got.second, got.microsecond) == want[1:5] and \
+            ((got.utcoffset() is None) if want[5] is None else (got.tzinfo is not None and got.utcoffset() == _dt.timedelta(seconds=want[5])))
+    else:
+        ok = type(got) is _dt.datetime and (got.year, got.month, got.day, got.hour, got.minute, got.second, got.microsecond) == want[1:8] and \
+            ((got.tzinfo is None) if want[8] is None else (got.tzinfo is not None and got.utcoffset() == _dt.timedelta(seconds=want[8])))
+    return "" if ok else f"{text!r} -> {got!r} (expected {want})"
+
+
+def _rs_iso_tabulate(ctx, mir) -> None:
+    """RSISO.tabulated: the compiled parser decided on values: the MIR of python::parsing::parse_iso8601 and of everything it reaches in the
+    crate (Parser::new / parse / parse_datetime / parse_time / parse_integer / iso_to_ymd / ordinal_to_ymd, the calendar helpers) is
+    evaluated by the checker's MIR evaluator (pvs/mirexec.py) on the table of PYISO.tabulated; the pyo3 constructors it ends in
+    (PyDate / PyTime / PyDateTime::new_bound, Py::new, to_object, downcast_bound) stand for the standard library's date / time /
+    datetime.  Accepted strings must yield exactly the value they denote, refused ones a ValueError."""
+    import datetime as _dt
+    from .. import mirexec
+    from ..mirexec import Enum, Opaque, Ref, Struct
+    rel = "rust/src/parsing.rs"
+    if mir is None:
+        return
+    sf = mirsym.struct_fields_from_source((core.REPO / rel).read_text())
+
+    def tz_of(opt):
+        if opt.variant == "None":
+            return None
+        t = opt.payload[0]
+        t = t.get() if isinstance(t, Ref) else t
+        if not isinstance(t, Struct) or "offset" not in t.names:
+            raise core.Unsupported("tzinfo handed to the constructor is not a FixedTimezone of the crate")
+        return _dt.timezone(_dt.timedelta(seconds=t.get("offset")))
+
+    def guard(f):
+        def g(*a):
+            try:
+                return Enum("Ok", [f(*a)])
+            except (ValueError, OverflowError):
+                return Enum("Err", [Opaque()])
+        return g
+    ext = [(r"PyDateTime::new_bound$", guard(lambda py, y, mo, d, h, mi, s_, us, tz: _dt.datetime(y, mo, d, h, mi, s_, us, tzinfo=tz_of(tz)))),
+           (r"PyDate::new_bound$", guard(lambda py, y, mo, d: _dt.date(y, mo, d))),
+           (r"PyTime::new_bound$", guard(lambda py, h, mi, s_, us, tz: _dt.time(h, mi, s_, us, tzinfo=tz_of(tz)))),
+           (r"pyo3::Py::<.*>::new::<", lambda py, v: Enum("Ok", [v])),
+           (r"as pyo3::ToPyObject>::to_object$", lambda r, py: r.get() if isinstance(r, Ref) else r),
+           (r"::downcast_bound::<", lambda r, py: Enum("Ok", [r])),
+           (r"PyValueError::new_err::<", lambda s_: Opaque())]
+    bad, n = [], 0
+    try:
+        f = mir.fn("parse_iso8601")
+        for text, want in _iso_table(ctx):
+            if text in RS_LEAVES_TO_FALLBACK:
+                continue
+            M = mirexec.Machine(mir, sf)
+            M.ext = ext
+            n += 1
+            try:
+                r = M.run(f, [Opaque(), text])
+            except mirexec.Panic as e:
+                bad.append(f"{text!r}: the compiled parser panics ({e})")
+                continue
+            if not isinstance(r, Enum) or r.variant not in ("Ok", "Err"):
+                raise core.Unsupported(f"result {r!r}")
+            got = r.payload[0] if r.variant == "Ok" else ("raise", "ValueError")
+            if isinstance(got, Struct):
+                continue          # a Duration of the crate: decided by C13
+            v = _iso_verdict(text, want, got)
+            if v:
+                bad.append(v)
+    except (core.Unsupported, core.AnchorMissing, KeyError, TypeError, AttributeError, IndexError, ValueError, RecursionError) as e:
+        ctx.unverified("RSISO.tabulated", "rs:parse_iso8601", f"outside the MIR evaluator: {type(e).__name__}: {str(e)[:200]}", rel)
+        return
+    ctx.ob("RSISO.tabulated", "rs:parse_iso8601", not bad, f"{n} strings evaluated on the MIR of the compiled parser: " + ("; ".join(bad[:3]) if bad else
+           "every accepted string yields the value it denotes, every malformed one a ValueError"), rel)
+    if not bad:
+        for fam, cons in ((("CUMSEARCH.forward", "WEEKDATE", "FRACTION", "OFFSET.parse", "RSWEEK"), "rs:"),):
+            ctx.established(fam, cons, "RSISO.tabulated")
 
 
 def _py_iso_tabulate(ctx) -> None:
@@ -820,8 +948,8 @@ def _py_iso_tabulate(ctx) -> None:
                 "UTC": _dt.timezone.utc, "FixedTimezone": minieval.ClassStub(_new=lambda off, *a, **k: _dt.timezone(_dt.timedelta(seconds=off)), _isa=lambda v: False),
                 "Duration": minieval.ClassStub(_new=lambda *a, **k: minieval.Stub(_duration=True), _isa=lambda v: False), "Timezone": None}
         bad, n = [], 0
-        table = list(PY_ISO)
-        if ctx.tier == "thorough":
+        table = _iso_table(ctx)
+        if False:
             # every day of years of each kind (common / leap, long / short ISO year, century) in the six date forms, alone and with a time
             for y in (1583, 1999, 2000, 2004, 2015, 2016, 2020, 2021, 2100, 9999):
                 d = _dt.date(y, 1, 1)
@@ -925,6 +1053,7 @@ def run(ctx) -> None:
     except mirfront.MirUnavailable as e:
         ctx.unverified("RUST", "parsing.rs", f"MIR unavailable, Rust clauses not checked: {e}", "rust/")
     if mir is not None:
+        ctx.step(_rs_iso_tabulate, ctx, mir)
         _rs_forward(ctx, mir, sf)
         _rs_backward(ctx, mir)
         _separators(ctx, mir)
